@@ -39,6 +39,9 @@ def gen_batch(r, bi, services=False, can=False, n_random=(6, 9), out_of_order=Tr
     # declared structs whose NAMES look like the rpc wrappers the generator synthesizes (<X>Input / <X>Output)
     add(p + "PedalInput", [("pos", 0, ("u", 10)), ("brake", 1, ("u", 1))])
     add(p + "StatusOutput", [("code", 0, ("i", 7)), ("inner", 1, ("struct", p + "PedalInput"))])
+    # field names with leading, trailing and doubled underscores (legal identifiers; name-case helpers see
+    # empty words)
+    add(p + "Under", [("class_", 0, ("u", 6)), ("_reserved", 1, ("i", 5)), ("torque__nm", 2, ("u", 13)), ("_", 3, ("u", 1))])
     add(p + "Nest", [("x", 0, ("u", 2)), ("n", 1, ("struct", p + "In")), ("m", 2, ("arr", ("struct", p + "In"), 2)), ("y", 3, ("i", 9))])
     add(p + "Cont", [
         ("a", 0, ("arr", ("u", r.choice([3, 8, 12])), 3)),
@@ -84,6 +87,9 @@ def gen_batch(r, bi, services=False, can=False, n_random=(6, 9), out_of_order=Tr
         # commands of several megabytes)
         fields = [("f%d" % j, fid, shapes.rand_type(r, enums, [x for x in structs if x != p + "Long"], 0, 3, True)) for j, fid in enumerate(ids)]
         add(n, fields)
+    # a NEGATIVE field id (the front end accepts it): it sorts first; all leaves are whole bytes.  Declared after
+    # the random structs so that it is neither a building block nor among the first CAN-bound structs.
+    add(p + "NegId", [("a", 0, ("u", 8)), ("flags", -1, ("u", 8)), ("b", 5, ("i", 16))] if out_of_order else [("flags", -1, ("u", 8)), ("a", 0, ("u", 8)), ("b", 5, ("i", 16))])
     can_bindings = []
     if can:
         ids = r.sample(range(1, 2047), 6)
@@ -103,6 +109,15 @@ def gen_batch(r, bi, services=False, can=False, n_random=(6, 9), out_of_order=Tr
                 decls.append({"kind": "impl", "protocol": "can", "type": s, "name": None, "items": [("field", "id", ids[k]), ("field", "bus", ("s", bus))]})
                 can_bindings.append((s, ids[k], bus))
                 k += 1
+        # a CAN-bound struct whose payload length varies: an Optional that is absent or present
+        if k < 9:
+            add("OptMsg%d" % bi, [("a", 0, ("u", 8)), ("o", 1, ("opt", ("u", 8))), ("z", 2, ("opt", ("i", 16)))])
+            bus = buses[k % len(buses)]
+            idv = r.choice([x for x in range(1, 2047) if x not in ids])
+            ids.append(idv)
+            decls.append({"kind": "impl", "protocol": "can", "type": "OptMsg%d" % bi, "name": None, "items": [("field", "id", idv), ("field", "bus", ("s", bus))]})
+            can_bindings.append(("OptMsg%d" % bi, idv, bus))
+            k += 1
         # dedicated small CAN messages with names of 1..12 characters
         for nm, w in (("M", 5), ("Msg%dAbcdefgh" % bi, 12), ("Cn%d" % bi, 33)):
             if k >= 9:
